@@ -31,7 +31,7 @@ OPS1 = [o for g in oc.ELEMENTWISE + oc.AGGREGATES for o in g]
 def _cc(**kw):
     base = dict(NApps=2, NSubs=2, MaxSteps=2, TEnd=4, MaxGap=1, SKs=ALLSK, Bs={99}, Ws={99}, Wrs={"none", "ref_count", "auto"},
                 Ns={0, 1, 2}, Mps={"none", "id", "take1"}, SrcIds={1}, GenLen=0, Hots={False}, Ties={"src", "cmd"}, ReUnsub=False,
-                StaleDisc=False, MinLen=0)
+                StaleDisc=False, Modes={"all"}, MinLen=0)
     base.update(kw)
     return base
 
@@ -45,18 +45,18 @@ def _rc(ops, **kw):
 
 def plan(tier):
     """[(module, label, constants, invariants, properties, simulate, depth)]"""
-    half = len(OPS1) // 2
+    third = len(OPS1) // 3
     if tier == "quick":
         return [("Connectable", "2 applications, 2 steps", _cc(), CINVS, [], None, None),
                 ("Connectable", "2 applications, simulate", _cc(NSubs=3, MaxSteps=5, MinLen=3, MaxGap=2, Bs={1, 99}, Ws={2, 99},
                                                                Ns={0, 1, 2}, Mps={"none", "id", "dup", "take1"}, SrcIds={1, 3, 7},
-                                                               Hots={True, False}, ReUnsub=True), CINVS, [], "num=400", 7),
-                ("Reuse", "2 applications, operators A", _rc(OPS1[:half]), RINVS, ["Monotone"], None, None),
-                ("Reuse", "2 applications, operators B", _rc(OPS1[half:]), RINVS, ["Monotone"], None, None)]
+                                                               Hots={True, False}, ReUnsub=True, Modes={"all", "once"}), CINVS, [], "num=400", 7),
+                ("Reuse", "2 applications, operators A", _rc(OPS1[:third]), RINVS, ["Monotone"], None, None),
+                ("Reuse", "2 applications, operators B", _rc(OPS1[third:2 * third]), RINVS, ["Monotone"], None, None),
+                ("Reuse", "2 applications, operators C", _rc(OPS1[2 * third:]), RINVS, ["Monotone"], None, None)]
     n = 5000
     deep = dict(NSubs=3, MaxSteps=7, MinLen=4, MaxGap=2, Bs={0, 1, 2, 99}, Ws={1, 2, 99}, Ns={0, 1, 2, 3},
-                Mps={"none", "id", "dup", "take1"}, SrcIds={1, 3, 5, 7, 8}, Hots={True, False}, ReUnsub=True, StaleDisc=True)
-    third = len(OPS1) // 3
+                Mps={"none", "id", "dup", "take1"}, SrcIds={1, 3, 5, 7, 8}, Hots={True, False}, ReUnsub=True, StaleDisc=True, Modes={"all", "once"})
     rk = dict(TermRows={1, 2, 3}, StartRows={1, 2, 3})
     return [("Connectable", "2 applications, 3 steps", _cc(MaxSteps=3, MaxGap=1, Bs={1, 99}), CINVS, [], None, None),
             ("Connectable", "2 applications, simulate", _cc(**deep), CINVS, [], f"num={n}", 9),
@@ -65,7 +65,8 @@ def plan(tier):
             ("Reuse", "2 applications, operators B", _rc(OPS1[third:2 * third], **rk), RINVS, ["Monotone"], None, None),
             ("Reuse", "2 applications, operators C", _rc(OPS1[2 * third:], **rk), RINVS, ["Monotone"], None, None),
             ("Reuse", "3 applications", _rc(OPS1, NApps=3, SrcIds={1, 3}, TermRows={2, 4}, StartRows={2, 5}), RINVS, ["Monotone"],
-             None, None)]
+             None, None),
+            ("Reuse", "2 applications, raising user functions", _rc(OPS1, Faults=True, TermRows={1}), RINVS, ["Monotone"], None, None)]
 
 
 # ---- (1) multicasting operators ---------------------------------------------------------------------------
@@ -73,7 +74,7 @@ def _cjob(args):
     idx, scn, allowed = args
     napps = len(cc.seq(scn["src"]))
     out, n, other = [], 0, []
-    forms = cc.forms_for(scn["kind"], scn["tie"], napps)
+    forms = cc.forms_for(scn["kind"], scn["tie"], napps, cc.has_once(scn))
     vs = [dict(form=f, profile="plain", salt=idx % 2, stride=10) for f in forms]
     if idx % 2:
         vs.append(dict(form=forms[idx % len(forms)], profile="falsy", salt=idx % 5, stride=3))
@@ -272,7 +273,7 @@ def run(tier: str) -> int:
                        xmx="2g", env_extra=JVM, allow_violation=False)
     clines, rlines = [], []
     t0 = time.time()
-    with ThreadPoolExecutor(4) as ex:
+    with ThreadPoolExecutor(5 if tier == "quick" else 4) as ex:
         for j, res in zip(jobs, ex.map(one, jobs)):
             ck.add_tlc(res, f"{j[0]}: {j[1]}" + (" [simulation]" if j[5] else " [exhaustive]"))
             (clines if j[0] == "Connectable" else rlines).extend(res.lines)
